@@ -245,6 +245,7 @@ def run_shard(modname, relname, tier, shard, nshards, n, seed, progress_file=Non
     """Returns dict(rec=..., failure=None|{case,msg,sig}, error=None|str, wall=...)."""
     import importlib
     t0 = time.time()
+    sys.stdout = open(os.devnull, 'w')   # the code under test prints debugging lines; workers report through return values only
     mod = importlib.import_module(modname)
     reg = mod.REG
     rel = reg.relations[relname]
